@@ -100,6 +100,11 @@ def build():
     info["make_errors"] = errs
     info["runner_ok"] = (ROOT / "bin" / "model_runner").exists() and "runner_status=0" in (
         (BUILD / "runner.log").read_text() if (BUILD / "runner.log").exists() else "")
+    # further runners, each extracted from its own entry point (a property module lists the ones it uses in RUNNERS)
+    info["extra_runners_ok"] = {
+        name: (ROOT / "bin" / name).exists() and f"{name}_status=0" in (
+            (BUILD / f"{name}.log").read_text() if (BUILD / f"{name}.log").exists() else "")
+        for name in ("scs_runner",)}
     return info
 
 
@@ -164,13 +169,13 @@ def obligations(pid):
 # ---------------------------------------------------------------------------------
 # running the model (extracted) and the implementation
 # ---------------------------------------------------------------------------------
-def run_model(cases, timeout=3600):
+def run_model(cases, timeout=3600, runner="model_runner"):
     """cases: list of dicts with 'fn' -> list of results (json), in order"""
     if not cases:
         return []
-    runner = ROOT / "bin" / "model_runner"
+    runner = ROOT / "bin" / runner
     if not runner.exists():
-        return [{"error": "model_runner missing"} for _ in cases]
+        return [{"error": f"{runner.name} missing"} for _ in cases]
     chunks = [cases[i::NPROC] for i in range(min(NPROC, len(cases)))]
     procs = []
     for ch in chunks:
@@ -384,6 +389,9 @@ def main():
                             + "; ".join(binfo.get("make_errors", [])[:3]))
     if not binfo.get("skipped") and not binfo.get("runner_ok", True):
         proof_broken.append("model_runner could not be built (model does not compile against the regenerated kernels)")
+    for extra in getattr(mod, "RUNNERS", []):
+        if not binfo.get("skipped") and not binfo.get("extra_runners_ok", {}).get(extra, True):
+            proof_broken.append(f"{extra} could not be built (its model does not compile against the regenerated definitions)")
 
     failing_inputs = []
     unexplained = []
